@@ -169,7 +169,7 @@ def gen_ops(rng, n, tier):
             b = list(a)
         else:
             b = rand_date(rng)
-        cases.append({'a': a, 'b': b, 'edit': rng.choice([None, None, 'fields', 'copy']), 'zones': rng.choice([[0, 0], [0, 0], [2, 0], [-3, 2], [1, 1]]), 'n': rng.choice([0, 1, 59, 60, 3600, 86400, 86399, 31536000, -1, -86400, rng.randint(-10 ** 7, 10 ** 8)])})
+        cases.append({'a': a, 'b': b, 'edit': rng.choice([None, None, 'fields', 'copy']), 'zones': rng.choice([[0, 0], [0, 0], [2, 0], [-3, 2], [1, 1]]), 'addms': rng.random() < 0.4, 'n': rng.choice([2, 5, 30, -3, -20, 0, 1, 59, 60, 3600, 86400, 86399, 31536000, -1, -86400, rng.randint(-10 ** 7, 10 ** 8)])})
     return cases
 
 
@@ -181,14 +181,14 @@ def run_ops(case):
     from tracklib.core import ObsTime
     za, zb = case.get('zones', [0, 0])            # a time-zone label on the timestamp: the calendar fields are what is converted, compared and shifted
     a = ObsTime(*case['a'], za); b = ObsTime(*case['b'], zb)
-    a0 = ObsTime(*(case['a'][:6] + [0]), za)
+    a0 = ObsTime(*(case['a'][:6] + [case['a'][6] if case.get('addms') else 0]), za)
     if case.get('edit'):
         # the same timestamps reached by editing the public calendar fields of objects that were already converted, compared and shifted
         a = ObsTime(*case['b'], za); a0 = ObsTime(*case['b'], za)
         for o in (a, a0):
             o.toAbsTime(); o.addSec(1); o - b; o < b
         a.year, a.month, a.day, a.hour, a.min, a.sec, a.ms = case['a']
-        a0.year, a0.month, a0.day, a0.hour, a0.min, a0.sec, a0.ms = case['a'][:6] + [0]
+        a0.year, a0.month, a0.day, a0.hour, a0.min, a0.sec, a0.ms = case['a'][:6] + [case['a'][6] if case.get('addms') else 0]
         if case['edit'] == 'copy':
             a = a.copy(); a0 = a0.copy()
     res = {'lt': a < b, 'gt': a > b, 'le': a <= b, 'ge': a >= b, 'eq': a == b, 'ne': a != b,
@@ -208,7 +208,7 @@ def coq_ops(case, obs):
     add = 'None'
     if 'add' in obs:
         add = 'Some (%s)' % dlit(obs['add'])
-    a0 = case['a'][:6] + [0]
+    a0 = case['a'][:6] + [case['a'][6] if case.get('addms') else 0]
     return '(%s, %s, %s, (%s, %s, %s, %s, %s), %s, %s, %s)' % (dlit(case['a']), dlit(case['b']), dlit(a0), coq_bool(obs['lt']), coq_bool(obs['gt']), coq_bool(obs['le']),
                                                            coq_bool(obs['ge']), coq_bool(obs['eq']), zlit(case['n']), add, q(obs['abs_a']))
 
@@ -226,6 +226,8 @@ def oracle_ops(case, obs):
         return 'toAbsTime(%r) = %r, the calendar says %r' % (case['a'], obs['abs_a'], ia / 1000.0)
     if 'add' in obs:
         s = to_secs(case['a']) + case['n']
+        if case.get('addms') and abs(obs['add'][6] - case['a'][6]) > 1:
+            return 'addSec(%r, %d) = %r: the millisecond part %d of the timestamp is lost' % (case['a'], case['n'], obs['add'], case['a'][6])
         if obs['add'][:6] != expect(s):
             return 'addSec(%r, %d) = %r, expected %r' % (case['a'][:6], case['n'], obs['add'], expect(s))
     return None
@@ -241,7 +243,7 @@ Definition ok (c : date * date * date * (bool*bool*bool*bool*bool) * Z * option 
   let '(a, b, a0, (l, g, le, ge, e), n, add, absa) := c in
   beq (lt a b) l && beq (gt a b) g && beq (negb (gt a b)) le && beq (negb (lt a b)) ge && beq (eqd a b) e &&
   Qle_bool (Qabs (inject_Z (to_abs_ms a) / 1000 - absa)) (1 # 1000000) &&
-  match add with None => true | Some d => eqd (add_sec a0 n) d end.'''),
+  match add with None => true | Some d => let r := add_sec a0 n in (year r =? year d) && (month r =? month d) && (day r =? day d) && (hour r =? hour d) && (minute r =? minute d) && (sec r =? sec d) && (Z.abs (ms a0 - ms d) <=? 1) end.   (* adding whole seconds keeps the sub-second part (to one unit: the float product frac * 1000) *)'''),
     generate=gen_ops, run_impl=run_ops, coq_case=coq_ops, oracle=oracle_ops,
     nontrivial=lambda c, o: c['a'] != c['b'], klass=lambda c, o: 'equal' if c['a'] == c['b'] else 'differ')
 
